@@ -161,6 +161,37 @@ def replay_obj(model):
     return bad, {"what": f"objective at the generating parameters = {np.asarray(res).tolist()} (must be 0)"}
 
 
+def replay_obj_second(model):
+    """Two wells, two gases, one initial pressure, one process: the objective of the second well at ITS generating
+    parameters must be zero (the forward model must be built on the table handed to that call)."""
+    import numpy as np
+    import warnings
+    from bluebonnet.forecast import forecast_pressure as fp
+    from bluebonnet.flow import FlowProperties, SinglePhaseReservoir
+    from bluebonnet.fluids import build_pvt_gas
+    from lmfit import Parameters
+    days = np.arange(6.0)
+    pf = np.array([3000.0, 2800.0, 2500.0, 2500.0, 2200.0, 2000.0])
+    tau, M, pi = 400.0, 5000.0, 4500.0
+    worst = []
+    with warnings.catch_warnings():
+        warnings.simplefilter("ignore")
+        for sg, T_ in ((0.6, 150.0), (0.9, 300.0)):
+            gv = {"N2": 0.0, "H2S": 0.0, "CO2": 0.0, "Gas Specific Gravity": sg, "Reservoir Temperature (deg F)": T_}
+            pvt = build_pvt_gas(gv, "dry gas", 6000)
+            r = SinglePhaseReservoir(80, pi, pi, FlowProperties(pvt, pi))
+            r.simulate(days / tau, pressure_fracface=pf)
+            prod = M * r.recovery_factor()
+            par = Parameters()
+            par.add("tau", value=tau)
+            par.add("M", value=M)
+            par.add("p_initial", value=pi)
+            res = fp._obj_function(par, days, prod, pvt, pf)
+            worst.append(float(np.abs(res).max() / (1 + np.abs(prod).max())))
+    bad = worst[-1] > 1e-9
+    return bad, {"what": f"objective at the generating parameters, first gas then second gas at the same p_initial: relative sizes {worst} (must be 0)"}
+
+
 # ------------------------------------------------------------------ jobs
 
 def job_objective(job):
@@ -203,6 +234,32 @@ def job_objective(job):
             continue
         job.prove(f"objective/== M * recovery_factor(days / tau) - production with p_initial from the parameters[path{k}]",
                   pr.pc + [T.b_not(T.b_and(*facts))], bound="3 days", replay=replay_obj)
+    # a second evaluation on the same loaded module with ANOTHER table (and the same parameters): the forward model of that
+    # evaluation must be built on the table handed to it - nothing may be carried over from the first call
+    pvt2 = object()
+
+    def run2():
+        Rec.log.clear()
+        mod._obj_function(par, days, prod, pvt, pf)
+        n1 = len(Rec.log)
+        out = mod._obj_function(par, days, prod, pvt2, pf)
+        return out, list(Rec.log[n1:])
+
+    for k, pr in enumerate(paths(job, run2, [])):
+        out, log = pr.value
+        res_ = [e for e in log if e[0] == "SinglePhaseReservoir"]
+        ok = len(res_) == 1 and getattr(res_[0][1][3], "args", (None,))[0] is pvt2
+        facts = [T.b_eq(P(res_[0][1][3].args[1]), P(pi))] if ok else []
+        job.record(f"objective/second evaluation with another table builds its forward model on that table[path{k}]", "unsat" if ok else "sat", 0.0,
+                   note=str([e[0] for e in log]))
+        if not ok:
+            okr, det = replay_obj_second({})
+            if okr:
+                job._violation("objective/second evaluation uses the table of an earlier call", {}, dict(det, replayer="replay_obj_second", replayer_kwargs={}), None)
+            else:
+                job.errors.append("objective: second evaluation does not rebuild the flow properties symbolically but the real code gives a zero objective - harness too strict")
+            continue
+        job.prove(f"objective/second evaluation: p_initial of the rebuilt flow properties[path{k}]", pr.pc + [T.b_not(T.b_and(*facts))], bound="two calls", replay=replay_obj_second)
 
 
 def job_fit(job, pattern, filt, window):
